@@ -324,6 +324,11 @@ func conclude(p *Prop, tier string, seed int64, results []*shardResult, start ti
 			}
 			seen[rr.Key] = true
 			counters["race_reports"]++
+			if !strings.Contains(rr.Key, "/") && !strings.Contains(rr.Key, ".") {
+				// neither access stack touches go-netty code: a fault of the harness itself
+				infra = append(infra, "race report outside go-netty code (harness fault): "+firstLines(rr.Block, 14))
+				continue
+			}
 			viols = append(viols, viol{line{T: "viol", Key: p.ID + ":race:" + rr.Key, Case: "race-detector",
 				What:   "data race reported by the Go race detector between " + rr.Key,
 				Replay: map[string]interface{}{"report": rr.Block}}, r.shard})
@@ -483,4 +488,12 @@ func Replay(path string) int {
 	}
 	fmt.Println("not reproduced on this run (the stored history in the replay file remains the witness)")
 	return 0
+}
+
+func firstLines(s string, n int) string {
+	l := strings.Split(s, "\n")
+	if len(l) > n {
+		l = l[:n]
+	}
+	return strings.Join(l, "\n")
 }
